@@ -23,6 +23,10 @@ TRange == /\ Ev.e = "Range"
           /\ Ev.outeq = TRUE                         \* out = in * reported gain
 TGate == /\ Ev.e = "Gate"
          /\ GateClausesOK(Ev.xs, Ev.gains, Ev.hold)
+(* smoothed gate: the gain moves toward its target only - never up while the input is below the threshold, never down
+   while it is at or above it *)
+TGateDyn == /\ Ev.e = "GateDyn" /\ Ev.inrange = TRUE /\ Len(Ev.dir) = Len(Ev.xs)
+            /\ \A i \in 1..Len(Ev.xs) : (Ev.xs[i] = 0 => Ev.dir[i] <= 0) /\ (Ev.xs[i] = 1 => Ev.dir[i] >= 0)
 TStep == /\ Ev.e = "Step"
          /\ Ev.mono = TRUE                           \* monotone approach, no overshoot
          /\ Ev.n10 >= 0 /\ Ev.n90 >= Ev.n10
@@ -35,7 +39,7 @@ TAgc == /\ Ev.e = "Agc"
         /\ (Ev.need_mdb <= Ev.max_mdb - 500) => (Ev.ratio_ppm >= 990000 /\ Ev.ratio_ppm <= 1010000)
 
 Next == /\ l <= Len(Log)
-        /\ (TStatic \/ TRange \/ TGate \/ TStep \/ TAgc) = TRUE
+        /\ (TStatic \/ TRange \/ TGate \/ TGateDyn \/ TStep \/ TAgc) = TRUE
         /\ l' = l + 1
 Spec == Init /\ [][Next]_l
 Furthest == IF l > TLCGet(1) THEN TLCSet(1, l) ELSE TRUE
